@@ -121,6 +121,18 @@ claim("C02", "exploration",
       "Trusted: numpy float64 libm within 1 ULP(float64) for tier 1 (all doubtful cases re-judged), mpmath real functions under Ziv's two-precision agreement, vf.graph.interp_np.",
       "DESIGN.md section 3 C02")
 
+claim("C01", "exploration",
+      "differential monitor: independent interpreter of the package's own expansions vs a Ziv multiprecision oracle with branch-cut candidate sets; binomial test for the rate claims",
+      "The 14 complex graphs x {complex64, complex128}, expanded by the package's own definitions, are evaluated on random bit patterns (W1), mid-range "
+      "magnitudes 2^+-12 (W2), a hostile mixture aimed at every threshold/curve the definitions use (W3) and a local error-maximising search from the worst "
+      "points (W4); each result is judged per component on the float lattice against the correctly rounded value of an independent multiprecision oracle "
+      "(16-ULP bound, spurious NaN / infinity / wrong sign), either side of a cut accepted, limits at infinite inputs by numeric limits. Exceedances of the design "
+      "target on W1/W2 feed a one-sided binomial test of rate <= 1e-3 (alpha = 1e-6). Select-arm coverage of every graph is measured and reported; a subsample is "
+      "cross-validated bit for bit against the emitted NumPy source.",
+      "Trusted: mpmath real primitives under two-precision (Ziv) agreement; oracle formulas in vf/mporacle.py; vf.graph.interp_np. 2^64 / 2^128 inputs are sampled, "
+      "not enumerated: 'held on K executions covering these select arms'. Three mechanism-keyed known findings (thin regions at subnormal components).",
+      "DESIGN.md section 3 C01")
+
 SOURCE_COMMITS = []
 
 
